@@ -298,6 +298,31 @@ def main():
                 elif kind == "copy":
                     opc = "(OCopy %d %s)" % (h, clist(path, cchars))
                     roots.append(copy.copy(target))
+                elif kind == "select" and type(target).__name__ == "GridType" and target._dict:
+                    # a sub-selection of a Grid is a new Grid with the chosen members: same id chain, same attributes, nothing
+                    # changes in the tree it was taken from (not an operation of the model: compared with the direct oracle only)
+                    ks = [unq(k) for k in target._visible_keys]
+                    sel = rng.sample(ks, rng.randint(1, len(ks))) if ks else []
+                    if not sel:
+                        continue
+                    try:
+                        got = target[tuple(sel)]
+                        bad = None
+                        if type(got) is not type(target) or got.id != target.id or got.name != target.name:
+                            bad = "id/name/type of the selection: %r %r" % (got.id, target.id)
+                        elif [c.id for c in got.children()] != [target[k].id for k in sel]:
+                            bad = "ids of the members: %r" % [c.id for c in got.children()]
+                        elif dict(got.attributes) != dict(target.attributes):
+                            bad = "attributes: %r vs %r" % (sorted(got.attributes), sorted(target.attributes))
+                        elif [plain(x) for x in roots] != before:
+                            bad = "the tree it was taken from changed"
+                        if bad and len(direct) < 20:
+                            direct.append({"law": "a sub-selection of a Grid keeps ids and attributes and leaves its source alone",
+                                           "handle": h, "path": path, "selection": sel, "difference": bad})
+                    except Exception as e:  # noqa
+                        direct.append({"law": "a sub-selection of a Grid by member names is answered", "selection": sel, "error": repr(e)[:200]})
+                    opcount["select_grid"] = opcount.get("select_grid", 0) + 1
+                    continue
                 elif kind == "select":
                     if type(target).__name__ not in ("StructureType", "DatasetType") or not target._dict:
                         continue
@@ -341,6 +366,37 @@ def main():
                                        "history_so_far": [hh.split(", [")[0] for hh in hist]})
         tcases.append("(%s, %s)" % (init, "[" + "; ".join(hist) + "]"))
         r.count(("hist", tuple(hh.split(", [")[0] for hh in hist)))
+    # ---- sub-selections of a Sequence and of a Grid below a Structure (with data): ids, attributes, order, source untouched
+    for nm in NAMES[:6]:
+        dsx = DatasetType("ds")
+        sx = StructureType(nm)
+        dsx[nm] = sx
+        qx = SequenceType("q", attributes={"u": 2})
+        sx["q"] = qx
+        qx["x"] = BaseType("x")
+        qx["z"] = BaseType("z")
+        qx.data = np.array([(1, 2), (3, 4)], dtype=[("x", "i4"), ("z", "i4")])
+        gx = GridType("g", attributes={"u": 1})
+        sx["g"] = gx
+        gx["a"] = BaseType("a", np.arange(6).reshape(2, 3), dims=("m", "n"))
+        gx["m"] = BaseType("m", np.arange(2))
+        gx["n"] = BaseType("n", np.arange(3))
+        before = plain(dsx)
+        for cont, sel in ((qx, ("z", "x")), (qx, ("z",)), (gx, ("a", "n")), (gx, ("m",))):
+            r.count(("subselection", nm, cont.name, sel))
+            try:
+                got = cont[sel]
+                want_ids = [cont[k].id for k in sel]
+                if (got.id != cont.id or [c.id for c in got.children()] != want_ids or dict(got.attributes) != dict(cont.attributes)
+                        or type(got) is not type(cont) or plain(dsx) != before):
+                    direct.append({"law": "a sub-selection of a Sequence or Grid keeps the id chain below the dataset, the attributes and "
+                                          "the order asked for, and leaves its source alone", "container": cont.id, "selection": list(sel),
+                                   "got_id": got.id, "member_ids": [c.id for c in got.children()], "want_member_ids": want_ids,
+                                   "attributes": sorted(got.attributes)})
+            except Exception as e:  # noqa
+                direct.append({"law": "a sub-selection by member names is answered", "container": cont.id, "selection": list(sel),
+                               "error": repr(e)[:200]})
+
     # ---- corpus: scripted histories (minimised from seeded changes), run with the same comparison
     def scripted(script):
         tok = Tokens()
